@@ -30,6 +30,8 @@ TREE_FIXES = {"large", "inbase", "complexop", "inplace", "tovalue", "ufuncscale"
 
 def _units_class(c):
     """conv family: what kind of unit pair (part of the key; older keys do not list it)."""
+    if c.get("em"):
+        return "em"
     if c.get("ident"):
         return "identity"
     if c.get("from") in (19, 20, 21, 22, 23) or c.get("to") in (19, 20, 21, 22, 23):
@@ -108,7 +110,8 @@ def _short(c):
 
 def impl_units(i):
     return {1: "m", 2: "la", 3: "lc", 4: "km", 5: "mile", 6: "cm", 7: "mm", 8: "Mm", 9: "ym", 10: "Ym", 11: "lnd", 12: "l_pl", 13: "Wh", 14: "J", 15: "dB", 16: "B",
-            17: "N", 18: "kg*m/s**2", 19: "degC", 20: "degF", 21: "K", 22: "tc", 23: "tf", 24: "dyn", 25: "g*cm/s**2"}[i]
+            17: "N", 18: "kg*m/s**2", 19: "degC", 20: "degF", 21: "K", 22: "tc", 23: "tf", 24: "dyn", 25: "g*cm/s**2",
+            26: "A", 27: "statA", 28: "mA", 29: "T", 30: "G", 31: "kV", 32: "V", 33: "uC", 34: "C"}[i]
 
 
 def _oshort(o):
@@ -138,7 +141,13 @@ def run(ck):
         return
 
     cfg = ck.q("MC_C17_quick", "MC_C17_full")
-    fixes = sorted(set(filter(None, os.environ.get("C17_TREE_FIXES", "").split(","))) or TREE_FIXES)
+    fixes = set(filter(None, os.environ.get("C17_TREE_FIXES", "").split(","))) or set(TREE_FIXES)
+    # which transcription (T only, never P) of in_base's E&M branch: the tree under test is read for the line the
+    # repair removes, so the same check is drift-free on /repo before and after the fix: commit
+    src = open(os.path.join(os.environ.get("UNYT_VERIF_REPO") or "/repo", "unyt", "array.py")).read()
+    if "ret = self.v * conv" not in src[src.index("def in_base("):src.index("def in_cgs(")]:
+        fixes.add("embase")
+    fixes = sorted(fixes)
     if fixes:
         mod = open(ck.spec + "/MC_C17.tla").read()
         end = mod.rindex("\n====") + 1
@@ -193,5 +202,5 @@ def run(ck):
     ck.cov["uncovered"] = [
         "non-dyadic conversion factors (rounding of factor products; only the dyadic registry is compared bit-for-bit)",
         "equivalence conversions that change dimension (thermal, spectral...): only the same-dimension branch of to_equivalent/convert_to_equivalent is replayed",
-        "electromagnetic (CGS/MKS) conversion branch, offset (temperature) units, bool/object/datetime dtypes, ufuncs other than add/subtract/maximum/minimum and the six comparisons",
+        "E&M units beyond mA/A, kV/V, uC/C, A/statA, T/G; offset units in mixed-unit ufuncs; bool/object/datetime dtypes, ufuncs other than add/subtract/maximum/minimum and the six comparisons",
     ]
